@@ -155,115 +155,164 @@ def run(ctx, chk):
 
 
 def driver_rules(ctx, chk, drv):
-    cfg = M.CFG(drv)
-    pb, pt = find_parse_call(drv)
-    idx = idx_local(drv)
-    sb, arms, otherwise = state_switch(ctx, drv)
+    """the execution loop as terms (driver_rules.LoopModel): what Interpreter::parse receives, where the index starts,
+    and what it becomes per outcome -- independent of how the source spells the updates"""
+    from driver_rules import LoopModel, has_unknown, local_closure
+    from symterm import subterms, strip, show, is_plus_one
+    import re
+    P = ctx.program
+    L = LoopModel(ctx, drv)
     span = drv["span"]
-    if pb is None or idx is None or sb is None:
-        chk.undecided_("C08.R5", "CMDDriver::run", "loop structure not recognised")
+    if not L.ok:
+        chk.undecided_("C08.R5", "CMDDriver::run", L.why or "loop structure not recognised")
         return
-    # the line handed to the interpreter is out.code[idx]
-    line_arg = pt[2][-1]
-    ch = deep_trace(drv, pb, line_arg)
-    idx_call = [c for c in ch if c[0] == "call" and "Index" in c[1]]
-    okl = False
-    if idx_call:
-        t = idx_call[0][2]
-        b2 = next(bi for bi, tt in M.calls_in(drv) if tt is t)
-        from driver_rules import origin_local
-        src = origin_local(drv, b2, t[2][1][1]["l"]) if t[2][1][0] in ("copy", "move") else None
-        okl = src == idx
-    if okl:
+    cfg = L.F.cfg
+    pb = L.pb
+    # the line handed to the interpreter is out.code[idx] for the idx passed as `current`
+    idxcalls = [t for t in subterms(L.line) if t[0] == "call" and re.search(r"(^|::)index>?$|Index<.*>>::index$", t[1]) and len(t[2]) >= 2]
+    if any(strip(t[2][1]) == L.cur for t in idxcalls):
         chk.ok("C08.R5", "line==code[idx]", "the interpreter receives out.code[idx] and current = idx")
+    elif idxcalls and not any(has_unknown(t[2][1]) for t in idxcalls):
+        chk.violation("C08.R5", "CMDDriver::run", "line-index-mismatch",
+                      f"the line handed to the interpreter is indexed by {show(idxcalls[0][2][1])}, not by the idx passed as `current` ({show(L.cur)})", span)
     else:
-        chk.violation("C08.R5", "CMDDriver::run", "line-index-mismatch", "the line handed to the interpreter is not out.code[idx] for the same idx passed as `current`", span)
-    # initial value: idx = l.map from the start lookup
-    inits = [(b, s) for b, s in assigns_local(drv, [b for b in cfg.reach if cfg.dominates(b, pb) and b != pb], idx)]
-    oki = False
-    for b, s in inits:
-        if s[2][0] != "use":
-            continue
-        ch2 = [("place", s[2][1][1])] if s[2][1][0] in ("copy", "move") and s[2][1][1]["p"] else trace_value(drv, b, s[2][1])
-        if any(c[0] == "place" and c[1]["p"] and isinstance(c[1]["p"][-1], list) and c[1]["p"][-1][0] == "f" and c[1]["p"][-1][2] == "map" for c in ch2) \
-                and not any(c[0] == "rvalue" for c in ch2):
-            oki = True
-    if oki and len(inits) == 1:
-        chk.ok("C08.R5", "idx0", "idx := label_map[\"start\"].map")
+        chk.undecided_("C08.R5", "line==code[idx]", f"line argument not recognised as an indexed element: {show(L.line)}")
+    # initial value: the map value of the label `start`
+    lab = next((a for n, a in P.adts.items() if n.endswith("::Label")), None)
+    map_i = next((i for i, f in enumerate(lab["variants"][0]["fields"]) if f[0] == "map"), None) if lab else None
+    T0 = L.init
+
+    def is_start_lookup(t):
+        return t[0] == "call" and t[1].endswith("::get") and "HashMap" in t[1] and any(strip(a) == ("str", '"start"') for a in t[2][1:])
+    if T0 is None:
+        chk.violation("C08.R5", "CMDDriver::run", "initial-index", "the execution loop is never entered", span)
     else:
-        chk.violation("C08.R5", "CMDDriver::run", "initial-index", f"idx is not initialised (only) from the map value of `start` ({len(inits)} initialisations)", span)
+        core = strip(T0)
+        looks = [t for t in subterms(T0) if is_start_lookup(t)]
+        arith = [t for t in subterms(T0) if t[0] in ("bin", "binO", "un")]
+        if core[0] == "proj" and core[2] == ("f", map_i) and looks and not arith and \
+                strip(core[1]) == ("proj", ("proj", looks[0], ("down", 1)), ("f", 0)):
+            chk.ok("C08.R5", "idx0", "idx := label_map[\"start\"].map")
+        elif looks and arith:
+            chk.violation("C08.R5", "CMDDriver::run", "initial-index", f"idx is not initialised with the map value of `start` itself but with {show(T0)}", span)
+        elif core[0] == "const":
+            chk.violation("C08.R5", "CMDDriver::run", "initial-index", f"idx is initialised with the constant {core[1]}, not from the map value of `start`", span)
+        elif core[0] == "proj" and core[2] == ("f", 0) and core[1][0] == "proj" and core[1][2] == ("down", 1) and core[1][1][0] == "call" \
+                and any(strip(a) == ("str", '"start"') for a in core[1][1][2]):
+            verdict, msg = start_helper_rule(ctx, core[1][1], map_i)
+            if verdict is True:
+                chk.ok("C08.R5", "idx0", msg)
+            elif verdict is False:
+                chk.violation("C08.R5", "CMDDriver::run", "initial-index", msg, span)
+            else:
+                chk.undecided_("C08.R5", "idx0", msg)
+        else:
+            chk.undecided_("C08.R5", "idx0", f"initial index not in a recognised closed form: {show(T0)}")
     # hlt pushed before the loop
     hl = [bi for bi, t in M.calls_in(drv) if (t[1].get("def") or "").endswith("Vec::<T, A>::push")]
-    if hl and all(cfg.dominates(b, pb) and pb not in [] for b in hl) and not any(b in cfg.reachable_from(M.term(drv["blocks"][pb])[4]) for b in hl):
+    if hl and all(cfg.dominates(b, pb) for b in hl) and not any(b in L.body for b in hl):
         chk.ok("C08.R5", "hlt-appended", "a line is appended to the code vector once, before the loop")
     else:
         chk.violation("C08.R5", "CMDDriver::run", "hlt-not-appended", "the terminating hlt is not appended exactly once before the execution loop", span)
     # arms
     want = {"JMP": "payload", "NEXT": "+1", "PRINT": "+1", "INT": "+1", "REPEAT": "same", "HALT": "return"}
     for name, how in want.items():
-        tgt = arms.get(name, otherwise)
-        region = cfg.reachable_from(tgt, avoid={sb})
-        back = pb in region
-        region_b = [b for b in region if pb in cfg.reachable_from(b, avoid={sb}) and b != pb]
-        ass = assigns_local(drv, region_b, idx)
+        arm = L.arms.get(name)
         unit = f"arm:{name}"
+        if arm is None:
+            chk.undecided_("C08.R5", unit, "no such State variant")
+            continue
+        nxt = arm["next"]
         if how == "return":
-            if back:
+            if nxt is not None:
                 chk.violation("C08.R5", "CMDDriver::run", "halt-continues", "after HALT the loop can reach the interpreter again", span)
             else:
                 chk.ok("C08.R5", unit, "returns")
             continue
-        if not back:
+        if nxt is None:
             # INT has exits (int 0, unsupported AH) but must have at least one path back
             chk.violation("C08.R5", "CMDDriver::run", f"{name}-never-continues", f"the {name} arm never continues the loop", span)
             continue
         if name in ("JMP", "NEXT", "REPEAT"):
-            # these outcomes always continue: no path from the arm may leave the loop (only HALT, a failed print, an
+            # these outcomes always continue: no path of the arm may leave the loop (only HALT, a failed print, an
             # interrupt that stops the program, or an internal error may return)
-            leave = [b for b in cfg.reachable_from(tgt, avoid={sb, pb}) if M.term(drv["blocks"][b])[0] == "return"
-                     or (M.term(drv["blocks"][b])[0] == "call" and (M.term(drv["blocks"][b])[1].get("def") or "").endswith("process::exit"))]
+            leave = arm["returns"] + arm["exits"]
             if leave:
                 chk.violation("C08.R5", "CMDDriver::run", f"{name}-arm-can-stop", f"the {name} arm can stop the program (a return/exit is reachable before the next instruction is issued): "
                               f"execution ends silently for some jump target / index", f"{drv['span'].rsplit(':', 2)[0]}:{drv['blocks'][leave[0]]['term']['line']}")
             else:
                 chk.ok("C08.R5", unit + ":continues", "every path returns to the interpreter call")
         if how == "same":
-            if ass:
-                chk.violation("C08.R5", "CMDDriver::run", "repeat-changes-idx", "the REPEAT arm modifies idx", span)
-            else:
-                chk.ok("C08.R5", unit, "idx unchanged")
-            continue
-        if not ass:
-            chk.violation("C08.R5", "CMDDriver::run", f"{name}-keeps-idx", f"the {name} arm returns to the interpreter without updating idx", span)
-            continue
-        good = True
-        for b, s in ass:
-            rv = s[2]
-            if how == "payload":
-                okp = rv[0] == "use" and rv[1][0] in ("copy", "move") and any(isinstance(pp, list) and pp[0] == "down" and pp[2] == "JMP" for pp in rv[1][1]["p"])
-                if not okp:
-                    ch = trace_value(drv, b, rv[1]) if rv[0] == "use" else []
-                    okp = any(c[0] == "place" and any(isinstance(pp, list) and pp[0] == "down" and pp[2] == "JMP" for pp in c[1]["p"]) for c in ch) and not any(c[0] == "rvalue" for c in ch)
-                good &= okp
-            else:
-                okp = False
-                if rv[0] == "use" and rv[1][0] in ("copy", "move"):
-                    ch = trace_value(drv, b, rv[1])
-                    for c in ch:
-                        if c[0] == "rvalue" and c[1][0] == "bin" and c[1][1] in ("AddO", "Add"):
-                            ops = c[1][2:]
-                            consts = [o[1].get("val") for o in ops if o[0] == "const"]
-                            from cfgtools import Defs, origin
-                            dd_ = Defs(drv)
-                            locs = []
-                            for o in ops:
-                                if o[0] in ("copy", "move"):
-                                    oo = origin(dd_, o)
-                                    # the operand is idx itself or a fresh copy of it (`idx = idx + 1` reads idx into a temporary)
-                                    locs.append(oo[1] if oo[0] in ("multi", "param") else (oo[1]["l"] if oo[0] == "place" else o[1]["l"]))
-                            okp = consts == [1] and locs == [idx]
-                good &= okp
-        if good:
-            chk.ok("C08.R5", unit, "idx := n" if how == "payload" else "idx := idx + 1")
+            good, desc, bad = nxt == L.cur, "idx unchanged", "repeat-changes-idx"
+            msg = f"the REPEAT arm modifies idx (it becomes {show(nxt)})"
+        elif how == "payload":
+            good, desc, bad = nxt == L.payload(arm["variant"]), "idx := n", f"{name}-update"
+            msg = f"the {name} arm does not set idx to the jump target (it becomes {show(nxt)})"
+            if nxt == L.cur:
+                bad, msg = f"{name}-keeps-idx", f"the {name} arm returns to the interpreter without updating idx"
         else:
-            chk.violation("C08.R5", "CMDDriver::run", f"{name}-update", f"the {name} arm does not set idx to {'the jump target' if how == 'payload' else 'idx + 1'}", span)
+            good, desc, bad = is_plus_one(nxt, L.cur), "idx := idx + 1", f"{name}-update"
+            msg = f"the {name} arm does not set idx to idx + 1 (it becomes {show(nxt)})"
+            if nxt == L.cur:
+                bad, msg = f"{name}-keeps-idx", f"the {name} arm returns to the interpreter without updating idx"
+        if good:
+            chk.ok("C08.R5", unit, desc)
+        elif has_unknown(nxt):
+            chk.undecided_("C08.R5", unit, f"index after the arm not in closed form: {show(nxt)}")
+        else:
+            chk.violation("C08.R5", "CMDDriver::run", bad, msg, span)
+
+
+def start_helper_rule(ctx, call, map_i):
+    """the index comes from the Some-payload of a local helper called with "start": the helper is analysed with V once per
+    label type: for a code label it must return Some(exactly the label's map value) or None, for a data label None"""
+    from program import fresh_value
+    from absint import Interp, State, RefV, TopV, EnumV, Unsupported
+    P = ctx.program
+    name = call[1]
+    fn = P.by_name.get(("bin", name)) or P.by_name.get(("lib", name))
+    if fn is None:
+        return None, f"initial index comes from {name}, which is not a local function"
+    lt = next((a for n, a in P.adts.items() if n.endswith("::LabelType")), None)
+    if lt is None:
+        return None, "LabelType not found"
+    res = {}
+    for vi, v in enumerate(lt["variants"]):
+        I = Interp(P)
+        I.force_enum = {lt["name"]: vi}
+        st = State()
+        st.frames.append({})
+        args = []
+        try:
+            for k in range(1, fn["argc"] + 1):
+                ty = fn["locals"][k]["ty"]
+                if "HashMap" in ty:
+                    st.frames[0][f"a{k}"] = TopV(ty.lstrip("&"), frozenset({("label_map", 0)}), tag=("map", "label_map"))
+                    args.append(RefV((0, f"a{k}", ())))
+                else:
+                    args.append(fresh_value(I, P, ty, f"a{k}"))
+            ret = I.run_fn(fn, args, st)
+        except (Unsupported, RecursionError, KeyError, IndexError, AttributeError) as e:
+            return None, f"{name} not analysable: {type(e).__name__} {e}"
+        res[v["name"]] = (ret, I)
+    from insn import is_copy
+    out = []
+    for vn, (ret, I) in res.items():
+        if ret is None or ret.kind != "enum":
+            return None, f"{name}: result not an Option value"
+        some = ret.fields if ret.variant == 1 else (ret.alts or {}).get(1) if ret.variant is None else None
+        if vn == "DATA":
+            if some is not None:
+                return False, f"{name} can return a position for a DATA label: a data label named start is executed as code"
+        else:
+            if some is None:
+                return False, f"{name} never returns a position for a CODE label"
+            pv = some[0]
+            atoms = [a for a in I.atoms if a.endswith(".map")]
+            if pv.kind == "int" and any(is_copy(pv, a) for a in atoms):
+                out.append(vn)
+            elif pv.kind == "int" and pv.aff is not None and atoms:
+                return False, f"{name} returns {pv.aff.pretty()} for a CODE label, not the label's map value"
+            else:
+                return None, f"{name}: returned position not in closed form ({pv!r})"
+    return True, f"idx := {name.split('::')[-1]}(label_map, \"start\") = the map value of the code label (V, per label type)"
